@@ -20,24 +20,66 @@ theorem placedAt_toArray_append (w : Nat) (l1 l2 : List Instr) (cn : Mem) :
   · intro i hi
     simp [List.getElem?_append_right]
 
-theorem funcCode_len (cf : Config) (params : List String) (body : S) :
-    (funcCode cf params body).length = funcLen cf.checked body := by
+theorem funcCode_len (cx : Cx) (fa : FAddr) (base : Nat) (params : List String) (body : S) :
+    (funcCode cx fa base params body).length = funcLen cx.checked body := by
   unfold funcCode funcLen prologueLen
-  cases hc : cf.checked <;> simp [hc, cS_len, mkCx] <;> omega
+  cases hc : cx.checked <;> simp [cS_len, hc] <;> omega
+
+theorem funsCode_len (cx : Cx) (fa : FAddr) : ∀ (fds : List FDecl) (a : Nat),
+    (funsCode cx fa a fds).length = funsLen cx.checked fds := by
+  intro fds
+  induction fds with
+  | nil => intro a; rfl
+  | cons fd fds ih => intro a; simp [funsCode, funsLen, funcCode_len, ih]
+
+theorem progCode_len (cf : Config) (pr : CProg) : (progCode cf pr).length = progLen cf.checked pr := by
+  simp only [progCode, progLen, List.length_append, funcCode_len, funsCode_len]; rfl
 
 theorem stdlibCode_len (w B : Nat) : (stdlibCode w B).length = stdlibLength := by
   simp [stdlibCode, stdlibLength, code_all_is_win, code_all_is_broken, code_stack_overflow, code_division_by_zero,
     code_out_of_bounds, code_nonlocal_preempt, code_write_const_byte_array, code_write_string,
     code_write_state_byte_array, code_write_bool, code_write_int]
 
-/-- the runtime library sits right behind the function -/
-theorem core_placed (cf : Config) (params : List String) (body : S) (hw : 2 ≤ cf.w)
-    (hB : funcLen cf.checked body + stdlibLength < 256 ^ cf.w) :
-    Placed (coreProg cf params body) (funcLen cf.checked body) := by
+/-- the runtime library sits right behind the functions -/
+theorem core_placed (cf : Config) (pr : CProg) (hw : 2 ≤ cf.w)
+    (hB : progLen cf.checked pr + stdlibLength < 256 ^ cf.w) :
+    Placed (coreProg cf pr) (progLen cf.checked pr) := by
   refine ⟨hw, ?_, hB⟩
-  have := (placedAt_toArray_append cf.w (funcCode cf params body) (stdlibCode cf.w (funcLen cf.checked body)) ⟨#[]⟩).2
-  rw [funcCode_len] at this
+  have := (placedAt_toArray_append cf.w (progCode cf pr) (stdlibCode cf.w (progLen cf.checked pr)) ⟨#[]⟩).2
+  rw [progCode_len] at this
   exact this
+
+/-- every function of the table is placed at the address the calls jump to -/
+theorem funs_placed (p : Prog) (cx : Cx) (fa : FAddr) : ∀ (fds : List FDecl) (a : Nat),
+    (fds.map (·.name)).Nodup → PlacedAt p a (funsCode cx fa a fds) →
+    ∀ fd ∈ fds,
+      PlacedAt p (faddr (layout cx.checked a fds) fd.name)
+        (funcCode cx fa (faddr (layout cx.checked a fds) fd.name) fd.params fd.body) ∧
+      faddr (layout cx.checked a fds) fd.name + funcLen cx.checked fd.body ≤ a + funsLen cx.checked fds := by
+  intro fds
+  induction fds with
+  | nil => intro a _ _ fd hfd; simp at hfd
+  | cons fd0 rest ih =>
+    intro a hnd hpl fd hfd
+    simp only [List.map_cons, List.nodup_cons] at hnd
+    simp only [funsCode] at hpl
+    obtain ⟨hpl1, hpl2⟩ := hpl.append
+    rw [funcCode_len] at hpl2
+    rcases List.mem_cons.1 hfd with rfl | hin
+    · have : faddr (layout cx.checked a (fd :: rest)) fd.name = a := by
+        simp [faddr, layout, List.lookup]
+      rw [this]
+      exact ⟨hpl1, by simp only [funsLen]; omega⟩
+    · have hne : fd.name ≠ fd0.name := by
+        intro e
+        exact hnd.1 (by rw [← e]; exact List.mem_map.2 ⟨fd, hin, rfl⟩)
+      have : faddr (layout cx.checked a (fd0 :: rest)) fd.name
+          = faddr (layout cx.checked (a + funcLen cx.checked fd0.body) rest) fd.name := by
+        have hb : (fd.name == fd0.name) = false := by simpa using hne
+        simp [faddr, layout, List.lookup, hb]
+      rw [this]
+      obtain ⟨h1, h2⟩ := ih (a + funcLen cx.checked fd0.body) hnd.2 hpl2 fd hin
+      exact ⟨h1, by simp only [funsLen]; omega⟩
 
 /-! ## the initial state -/
 theorem zsize (n : Nat) : (⟨Array.replicate n 0⟩ : Mem).size = n := by simp [Mem.size]
@@ -92,13 +134,13 @@ theorem writeArgs_read (w F : Nat) (hw : 0 < w) : ∀ (args : List Int) (m : Mem
       rw [show i + 1 + j + 2 = i + (j + 1) + 2 from by omega] at this
       exact this
 
-theorem initMem_size (cf : Config) (args : List Int) (body : S) :
-    (initMem cf args body).size = 5 * cf.w + cf.stackWords * cf.w + args.length * cf.w + cf.w := by
+theorem initMem_size (cf : Config) (args : List Int) (pr : CProg) :
+    (initMem cf args pr).size = 5 * cf.w + cf.stackWords * cf.w + args.length * cf.w + cf.w := by
   unfold initMem
   simp only [writeArgs_size, Mem.size_writeLE, zsize]
 
 section init
-variable (cf : Config) (args : List Int) (body : S)
+variable (cf : Config) (args : List Int) (pr : CProg)
 
 /-- address of the frame pointer of the entry point -/
 abbrev F0 : Nat := 5 * cf.w + cf.stackWords * cf.w + args.length * cf.w + cf.w
@@ -107,9 +149,9 @@ theorem F0_args : (0 + args.length + 1) * cf.w ≤ F0 cf args := by
   unfold F0; simp only [Nat.zero_add, Nat.add_mul, Nat.one_mul]; omega
 
 theorem initMem_low (hw : 2 ≤ cf.w) (x k : Nat) (hx : x + k ≤ 5 * cf.w) :
-    (initMem cf args body).readLE x k =
+    (initMem cf args pr).readLE x k =
       ((((⟨Array.replicate (F0 cf args) 0⟩ : Mem).writeLE 0 cf.w (5 * cf.w)).writeLE cf.w cf.w (F0 cf args)).writeLE (F0 cf args - cf.w) cf.w
-        (funcLen cf.checked body + off_all_is_win)).readLE x k := by
+        (progLen cf.checked pr + off_all_is_win)).readLE x k := by
   unfold initMem
   exact Mem.readLE_congr _ _ _ _ (fun y h1 h2 => writeArgs_other cf.w _ args _ 0 y (F0_args cf args)
     (Or.inl (by
@@ -117,25 +159,25 @@ theorem initMem_low (hw : 2 ≤ cf.w) (x k : Nat) (hx : x + k ≤ 5 * cf.w) :
       unfold F0 at *; omega)))
 
 theorem initMem_fp (hw : 2 ≤ cf.w) (hSE : F0 cf args < 256 ^ cf.w) :
-    (initMem cf args body).readLE cf.w cf.w = F0 cf args := by
-  rw [initMem_low cf args body hw cf.w cf.w (by omega)]
+    (initMem cf args pr).readLE cf.w cf.w = F0 cf args := by
+  rw [initMem_low cf args pr hw cf.w cf.w (by omega)]
   rw [Mem.readLE_writeLE_disj _ _ _ _ _ _ (by unfold F0; omega),
     Mem.readLE_writeLE_same _ _ _ _ (by simp only [Mem.size_writeLE, zsize]; unfold F0; omega)]
   exact Nat.mod_eq_of_lt hSE
 
-theorem initMem_ap (hw : 2 ≤ cf.w) : (initMem cf args body).readLE 0 cf.w = 5 * cf.w := by
-  rw [initMem_low cf args body hw 0 cf.w (by omega)]
+theorem initMem_ap (hw : 2 ≤ cf.w) : (initMem cf args pr).readLE 0 cf.w = 5 * cf.w := by
+  rw [initMem_low cf args pr hw 0 cf.w (by omega)]
   rw [Mem.readLE_writeLE_disj _ _ _ _ _ _ (by unfold F0; omega), Mem.readLE_writeLE_disj _ _ _ _ _ _ (by omega),
     Mem.readLE_writeLE_same _ _ _ _ (by simp only [zsize]; unfold F0; omega)]
   exact Nat.mod_eq_of_lt (by have := mul_w_lt_pow cf.w hw; omega)
 
-theorem initMem_ra (hw : 2 ≤ cf.w) (hB : funcLen cf.checked body + stdlibLength < 256 ^ cf.w) :
-    (initMem cf args body).readLE (F0 cf args - cf.w) cf.w = funcLen cf.checked body + off_all_is_win := by
+theorem initMem_ra (hw : 2 ≤ cf.w) (hB : progLen cf.checked pr + stdlibLength < 256 ^ cf.w) :
+    (initMem cf args pr).readLE (F0 cf args - cf.w) cf.w = progLen cf.checked pr + off_all_is_win := by
   unfold initMem
   have : (writeArgs cf.w (F0 cf args) ((((⟨Array.replicate (F0 cf args) 0⟩ : Mem).writeLE 0 cf.w (5 * cf.w)).writeLE cf.w cf.w (F0 cf args)).writeLE (F0 cf args - cf.w) cf.w
-        (funcLen cf.checked body + off_all_is_win)) 0 args).readLE (F0 cf args - cf.w) cf.w
+        (progLen cf.checked pr + off_all_is_win)) 0 args).readLE (F0 cf args - cf.w) cf.w
       = ((((⟨Array.replicate (F0 cf args) 0⟩ : Mem).writeLE 0 cf.w (5 * cf.w)).writeLE cf.w cf.w (F0 cf args)).writeLE (F0 cf args - cf.w) cf.w
-        (funcLen cf.checked body + off_all_is_win)).readLE (F0 cf args - cf.w) cf.w :=
+        (progLen cf.checked pr + off_all_is_win)).readLE (F0 cf args - cf.w) cf.w :=
     Mem.readLE_congr _ _ _ _ (fun y h1 h2 => writeArgs_other cf.w _ args _ 0 y (F0_args cf args)
       (Or.inr (by simp only [Nat.zero_add, Nat.one_mul]; exact h1)))
   show (writeArgs cf.w (F0 cf args) _ 0 args).readLE (F0 cf args - cf.w) cf.w = _
@@ -143,324 +185,205 @@ theorem initMem_ra (hw : 2 ≤ cf.w) (hB : funcLen cf.checked body + stdlibLengt
   exact Nat.mod_eq_of_lt (by simp [off_all_is_win, stdlibLength] at *; omega)
 
 theorem initMem_arg (hw : 2 ≤ cf.w) (j : Nat) (hj : j < args.length) :
-    (initMem cf args body).readLE (F0 cf args - (j + 2) * cf.w) cf.w = wrapI (256 ^ cf.w) args[j] := by
+    (initMem cf args pr).readLE (F0 cf args - (j + 2) * cf.w) cf.w = wrapI (256 ^ cf.w) args[j] := by
   unfold initMem
   have := writeArgs_read cf.w (F0 cf args) (by omega) args
     ((((⟨Array.replicate (F0 cf args) 0⟩ : Mem).writeLE 0 cf.w (5 * cf.w)).writeLE cf.w cf.w (F0 cf args)).writeLE (F0 cf args - cf.w) cf.w
-        (funcLen cf.checked body + off_all_is_win)) 0 j hj (F0_args cf args)
+        (progLen cf.checked pr + off_all_is_win)) 0 j hj (F0_args cf args)
     (by simp only [Mem.size_writeLE, zsize]; exact Nat.le_refl _)
   rw [Nat.zero_add] at this
   exact this
 end init
 
 /-! ## the entry frame: parameters bound to the arguments -/
-theorem contains_paramGam (w : Nat) : ∀ (params : List String) (i : Nat) (y : String),
-    ((paramGam w i params).map Prod.fst).contains y = params.contains y := by
-  intro params
-  induction params with
-  | nil => intro i y; rfl
-  | cons x xs ih => intro i y; simp only [paramGam, List.map_cons, List.contains_cons, ih]
-
-theorem look_paramGam_ge (w : Nat) : ∀ (params : List String) (i : Nat) (y : String),
-    params.contains y = true → (i + 2) * w ≤ look (paramGam w i params) y ∧ look (paramGam w i params) y ≤ (i + params.length + 1) * w := by
-  intro params
-  induction params with
-  | nil => intro i y h; simp at h
-  | cons x xs ih =>
-    intro i y h
-    simp only [paramGam, List.length_cons]
-    by_cases hyx : y = x
-    · subst hyx
-      rw [look_cons_same]
-      simp only [Nat.add_mul, Nat.one_mul]; omega
-    · rw [look_cons_other _ _ _ _ hyx]
-      have hy : xs.contains y = true := by
-        simp only [List.contains_cons] at h
-        have : (y == x) = false := by simpa using hyx
-        simpa [this] using h
-      have := ih (i + 1) y hy
-      simp only [Nat.add_mul, Nat.one_mul] at this ⊢; omega
-
-theorem disj_paramGam (w : Nat) : ∀ (params : List String) (i : Nat), params.Nodup → Disj w (paramGam w i params) := by
-  intro params
-  induction params with
-  | nil => intro i _ x y hx; simp [paramGam] at hx
-  | cons x xs ih =>
-    intro i hnd y z hy hz hyz
-    rw [contains_paramGam] at hy hz
-    have hxs : xs.Nodup := (List.nodup_cons.1 hnd).2
-    simp only [paramGam]
-    by_cases hyx : y = x
-    · subst hyx
-      have hzy : z ≠ y := fun e => hyz e.symm
-      have hz' : xs.contains z = true := by
-        simp only [List.contains_cons] at hz
-        have : (z == y) = false := by simpa using hzy
-        simpa [this] using hz
-      rw [look_cons_same, look_cons_other _ _ _ _ hzy]
-      have := (look_paramGam_ge w xs (i + 1) z hz').1
-      simp only [Nat.add_mul, Nat.one_mul] at this ⊢
-      left; omega
-    · have hy' : xs.contains y = true := by
-        simp only [List.contains_cons] at hy
-        have : (y == x) = false := by simpa using hyx
-        simpa [this] using hy
-      rw [look_cons_other _ _ _ _ hyx]
-      by_cases hzx : z = x
-      · subst hzx
-        rw [look_cons_same]
-        have := (look_paramGam_ge w xs (i + 1) y hy').1
-        simp only [Nat.add_mul, Nat.one_mul] at this ⊢
-        right; omega
-      · have hz' : xs.contains z = true := by
-          simp only [List.contains_cons] at hz
-          have : (z == x) = false := by simpa using hzx
-          simpa [this] using hz
-        rw [look_cons_other _ _ _ _ hzx]
-        exact ih (i + 1) hxs y z (by rw [contains_paramGam]; exact hy') (by rw [contains_paramGam]; exact hz') hyz
-
-theorem vars_paramGam (w : Nat) (m : Mem) (F : Nat) : ∀ (params : List String) (args : List Int) (i : Nat),
-    params.Nodup → args.length = params.length →
+theorem slots_of_reads (w : Nat) (m : Mem) (F : Nat) : ∀ (args : List Int) (i : Nat),
     (∀ j (hj : j < args.length), m.readLE (F - (i + j + 2) * w) w = wrapI (256 ^ w) args[j]) →
-    VarsOK w (paramGam w i params) (argEnv (256 ^ w) params args) m F ((i + params.length + 1) * w) := by
-  intro params
-  induction params with
-  | nil => intro args i _ _ _ x hx; simp [paramGam] at hx
-  | cons x xs ih =>
-    intro args i hnd hlen hm y hy
-    cases args with
-    | nil => simp at hlen
-    | cons a as =>
-      rw [contains_paramGam] at hy
-      have hb := look_paramGam_ge w (x :: xs) i y hy
-      refine ⟨by have := hb.1; simp only [Nat.add_mul] at this; omega, hb.2, ?_⟩
-      simp only [paramGam, argEnv]
-      by_cases hyx : y = x
-      · subst hyx
-        rw [look_cons_same, upd_same]
-        have := hm 0 (by simp)
-        simpa using this
-      · rw [look_cons_other _ _ _ _ hyx, upd_other _ _ _ _ hyx]
-        have hy' : xs.contains y = true := by
-          simp only [List.contains_cons] at hy
-          have : (y == x) = false := by simpa using hyx
-          simpa [this] using hy
-        have := ih as (i + 1) (List.nodup_cons.1 hnd).2 (by simpa using hlen)
-          (fun j hj => by
-            have := hm (j + 1) (by simp; omega)
-            rw [show i + 1 + j + 2 = i + (j + 1) + 2 from by omega]
-            simpa using this) y (by rw [contains_paramGam]; exact hy')
-        exact this.2.2
-
-theorem map_fst_paramGam (w : Nat) : ∀ (params : List String) (i : Nat), (paramGam w i params).map Prod.fst = params := by
-  intro params
-  induction params with
-  | nil => intro i; rfl
-  | cons x xs ih => intro i; simp [paramGam, ih]
+    SlotsAt w m F ((i + 2) * w) (args.map (wrapI (256 ^ w))) := by
+  intro args
+  induction args with
+  | nil => intro i _; trivial
+  | cons a as ih =>
+    intro i h
+    refine ⟨by
+      have := h 0 (by simp)
+      simp only [Nat.add_zero, List.getElem_cons_zero] at this
+      exact this, ?_⟩
+    have := ih (i + 1) (fun j hj => by
+      have := h (j + 1) (by simp; omega)
+      rw [show i + 1 + j + 2 = i + (j + 1) + 2 from by omega]
+      simpa using this)
+    rw [show (i + 2) * w + w = (i + 1 + 2) * w from by simp only [Nat.add_mul, Nat.one_mul]; omega]
+    exact this
 
 /-- the flags a run ends with -/
 def terminalEvs : Res → List Ev
   | .div0 => [Ev.flag "division_by_zero", Ev.flag "error"]
   | _ => [Ev.flag "win"]
 
-/-- the prologue of a checked build: compares the free stack `fp - ap` with the frame peak -/
-theorem prologue_steps (cf : Config) (params : List String) (args : List Int) (body : S) (hw : 2 ≤ cf.w)
-    (hck : cf.checked = true)
-    (hB : funcLen cf.checked body + stdlibLength < 256 ^ cf.w) (hSE : F0 cf args < 256 ^ cf.w)
-    (hpkM : pkS cf.w (entryOff cf.w params) body < 256 ^ cf.w) :
-    let p := coreProg cf params body
-    ∃ m1, Keep cf.w (initMem cf args body) m1 (5 * cf.w) ∧
-      Sphinx.step p ⟨0, initMem cf args body⟩ = .jump ⟨1, initMem cf args body⟩ ⟨5, initMem cf args body⟩ ∧
-      Sphinx.step p ⟨1, initMem cf args body⟩ = .next ⟨2, m1⟩ none ∧
-      Sphinx.step p ⟨2, m1⟩ =
-        (if pkS cf.w (entryOff cf.w params) body ≤ cf.stackWords * cf.w + args.length * cf.w + cf.w then .halt
-         else .next ⟨3, m1⟩ none) ∧
-      Sphinx.step p ⟨3, m1⟩ = .jump ⟨4, m1⟩ ⟨funcLen cf.checked body + off_stack_overflow, m1⟩ ∧
-      Sphinx.step p ⟨4, m1⟩ = .halt := by
-  intro p
-  have h64 := mul_w_lt_pow cf.w hw
-  have hM := pow_ge2 cf.w hw
-  have hpw : p.w = cf.w := rfl
-  have hcodeP : PlacedAt p 0 (funcCode cf params body) :=
-    (placedAt_toArray_append cf.w (funcCode cf params body) (stdlibCode cf.w (funcLen cf.checked body)) ⟨#[]⟩).1
-  have hpro := hcodeP
-  unfold funcCode at hpro
-  rw [hck] at hpro
-  simp only [if_true] at hpro
-  have hpro1 := hpro.append.1
-  have c0 := hpro1 0 (by simp); have c1 := hpro1 1 (by simp); have c2 := hpro1 2 (by simp)
-  have c3 := hpro1 3 (by simp); have c4 := hpro1 4 (by simp)
-  simp only [List.getElem_cons_succ, List.getElem_cons_zero, Nat.add_zero, Nat.zero_add] at c0 c1 c2 c3 c4
-  have hsz := initMem_size cf args body
-  have hF : F0 cf args = 5 * cf.w + cf.stackWords * cf.w + args.length * cf.w + cf.w := rfl
-  have s0 := step_j (p := p) (m := initMem cf args body) c0 (ev_imm 5)
-  rw [show 5 % p.M = 5 from Nat.mod_eq_of_lt (by unfold Prog.M; rw [hpw]; omega)] at s0
-  have hfp : evalArg p ⟨1, initMem cf args body⟩ (.st (mkCx cf body).fp) = some (F0 cf args) := by
-    show evalArg p _ (.st p.w) = _
-    rw [ev_st (by unfold Prog.M; rw [hpw]; omega) (by rw [hpw, hsz]; omega), hpw, initMem_fp cf args body hw hSE]
-  have hap : evalArg p ⟨1, initMem cf args body⟩ (.st 0) = some (5 * cf.w) := by
-    rw [ev_st (by unfold Prog.M; rw [hpw]; omega) (by rw [hpw, hsz]; omega), hpw, initMem_ap cf args body hw]
-  have s1 := step_alu (p := p) (m := initMem cf args body) c1 hfp hap alu_sub
-    (by show 3 * cf.w < p.M; unfold Prog.M; rw [hpw]; omega) (by show 3 * cf.w + p.w ≤ _; rw [hpw, hsz]; omega)
-  rw [show (F0 cf args + p.M - 5 * cf.w % p.M) % p.M = cf.stackWords * cf.w + args.length * cf.w + cf.w from by
-    unfold Prog.M; rw [hpw, sub_mod_small (by rw [hF]; omega) hSE]; rw [hF]; omega] at s1
-  refine ⟨(initMem cf args body).writeLE (mkCx cf body).r1 p.w (cf.stackWords * cf.w + args.length * cf.w + cf.w),
-    Keep.write _ _ _ _ _ _ (by show 2 * cf.w ≤ 3 * cf.w; omega) (by show 3 * cf.w + cf.w ≤ _; omega), s0, s1, ?_, ?_, ?_⟩
-  · have hr1 : evalArg p ⟨2, (initMem cf args body).writeLE (mkCx cf body).r1 p.w (cf.stackWords * cf.w + args.length * cf.w + cf.w)⟩
-        (.st (mkCx cf body).r1) = some (cf.stackWords * cf.w + args.length * cf.w + cf.w) := by
-      show evalArg p _ (.st (3 * cf.w)) = _
-      rw [ev_st (by unfold Prog.M; rw [hpw]; omega) (by simp; rw [hpw, hsz]; omega)]
-      show some (((initMem cf args body).writeLE (3 * cf.w) cf.w _).readLE (3 * cf.w) cf.w) = _
-      rw [Mem.readLE_writeLE_same _ _ _ _ (by rw [hsz]; omega)]
-      rw [Nat.mod_eq_of_lt (by rw [hF] at hSE; omega)]
-    have s2 := step_hcond (p := p) c2 hr1 (ev_imm _)
-    have hmax : pkS cf.w (entryOff cf.w params) body % (mkCx cf body).M % p.M = pkS cf.w (entryOff cf.w params) body := by
-      show pkS cf.w (entryOff cf.w params) body % 256 ^ cf.w % p.M = _
-      unfold Prog.M; rw [hpw, Nat.mod_mod]; exact Nat.mod_eq_of_lt hpkM
-    rw [hmax] at s2
-    simpa [haltCond] using s2
-  · have s3 := step_j (p := p) (m := (initMem cf args body).writeLE (mkCx cf body).r1 p.w (cf.stackWords * cf.w + args.length * cf.w + cf.w))
-      c3 (ev_imm _)
-    rw [show ((mkCx cf body).B + off_stack_overflow) % p.M = funcLen cf.checked body + off_stack_overflow from
-      Nat.mod_eq_of_lt (by unfold Prog.M; rw [hpw]; show funcLen cf.checked body + off_stack_overflow < _
-                           simp [off_stack_overflow, stdlibLength] at *; omega)] at s3
-    exact s3
-  · exact step_halt (p := p) c4
+/-- the static conditions of `wfProg`, as the proofs use them -/
+theorem wfProg_parts {pr : CProg} (h : wfProg pr = true) :
+    pr.params.Nodup ∧ wfS pr.params pr.body = true ∧ youLevel pr.body = true ∧ noFall pr.body = true ∧
+    (pr.funs.map (·.name)).Nodup ∧
+    ∀ fd ∈ pr.funs, fd.params.Nodup ∧ wfS fd.params fd.body = true ∧ plain fd.body = true := by
+  simp only [wfProg, Bool.and_eq_true, decide_eq_true_eq, List.all_eq_true] at h
+  obtain ⟨⟨⟨⟨⟨⟨h1, h2⟩, h3⟩, h4⟩, _⟩, h5⟩, h6⟩ := h
+  exact ⟨h1, h2, h3, h4, h5, fun fd hfd => ⟨(h6 fd hfd).1.1.1, (h6 fd hfd).1.1.2, (h6 fd hfd).1.2⟩⟩
 
-theorem core_correct (cf : Config) (params : List String) (args : List Int) (body : S) (hw : 2 ≤ cf.w)
-    (hB : funcLen cf.checked body + stdlibLength < 256 ^ cf.w) (hSE : F0 cf args < 256 ^ cf.w)
-    (hnd : params.Nodup) (hlen : args.length = params.length)
-    (hwf : wfS params body = true) (hyl : youLevel body = true)
+/-- the facts about the function table that `cS_ok` needs, for the program `coreProg` -/
+theorem core_fnsOK (cf : Config) (pr : CProg) (hwf : wfProg pr = true) :
+    FnsOK (coreProg cf pr) cf.checked (progLen cf.checked pr) (progFA cf.checked pr) pr.funs := by
+  obtain ⟨_, _, _, _, hnames, hfd⟩ := wfProg_parts hwf
+  have hall : PlacedAt (coreProg cf pr) 0 (progCode cf pr) :=
+    (placedAt_toArray_append cf.w (progCode cf pr) (stdlibCode cf.w (progLen cf.checked pr)) ⟨#[]⟩).1
+  unfold progCode at hall
+  have h2 := hall.append.2
+  rw [funcCode_len, Nat.zero_add] at h2
+  have hp := funs_placed (coreProg cf pr) (mkCx cf pr) (progFA cf.checked pr) pr.funs (funcLen cf.checked pr.body) hnames h2
+  refine ⟨fun fd h => (hp fd h).1, fun fd h => ?_, fun fd h => (hfd fd h).1, fun fd h => (hfd fd h).2.1, fun fd h => (hfd fd h).2.2⟩
+  have := (hp fd h).2
+  rw [show funcCode (cxOf (coreProg cf pr) cf.checked (progLen cf.checked pr)) = funcCode (mkCx cf pr) from rfl,
+    funcCode_len]
+  exact this
+
+/-- frame facts of the initial memory -/
+theorem init_inv (cf : Config) (args : List Int) (pr : CProg) (hw : 2 ≤ cf.w)
+    (hB : progLen cf.checked pr + stdlibLength < 256 ^ cf.w) (hSE : F0 cf args < 256 ^ cf.w)
+    (hnd : pr.params.Nodup) (hlen : args.length = pr.params.length) :
+    SInv (coreProg cf pr) (paramGam cf.w (2 * cf.w) pr.params) (argEnv (256 ^ cf.w) pr.params args) (initMem cf args pr)
+      (F0 cf args) (cf.stackWords * cf.w + args.length * cf.w + cf.w) (entryOff cf.w pr.params)
+      (progLen cf.checked pr + off_all_is_win) := by
+  have hF : F0 cf args = 5 * cf.w + cf.stackWords * cf.w + args.length * cf.w + cf.w := rfl
+  refine ⟨⟨initMem_fp cf args pr hw hSE, initMem_ap cf args pr hw, by rw [initMem_size]; exact Nat.le_refl _, hSE,
+    by show 5 * cf.w + _ ≤ _; rw [hF]; omega⟩, ?_, initMem_ra cf args pr hw hB⟩
+  have hs := slots_of_reads cf.w (initMem cf args pr) (F0 cf args) args 0
+    (fun j hj => by rw [Nat.zero_add]; exact initMem_arg cf args pr hw j hj)
+  rw [Nat.zero_add] at hs
+  have := vars_slots cf.w (initMem cf args pr) (F0 cf args) pr.params (args.map (wrapI (256 ^ cf.w))) (2 * cf.w) hnd
+    (by simpa using hlen) (Nat.le_refl _) hs
+  have heo : 2 * cf.w + pr.params.length * cf.w - cf.w = entryOff cf.w pr.params := by
+    unfold entryOff; rw [Nat.add_mul, Nat.one_mul]; omega
+  rw [heo] at this
+  exact this
+
+/-- bytes between the bottom of the stack and the frame pointer of the entry point -/
+abbrev roomOf (cf : Config) (args : List Int) : Nat := cf.stackWords * cf.w + args.length * cf.w + cf.w
+
+/-- the source semantics of a whole program: the entry point applied to the argument vector, with the
+functions of the program as the call table -/
+abbrev srcRun (cf : Config) (fuel : Nat) (args : List Int) (pr : CProg) : Option (Env × List Ev × Res) :=
+  exec (256 ^ cf.w) (8 * cf.w) pr.funs cf.w fuel (roomOf cf args) (entryOff cf.w pr.params)
+    (argEnv (256 ^ cf.w) pr.params args) pr.body
+
+theorem core_correct (cf : Config) (args : List Int) (pr : CProg) (hw : 2 ≤ cf.w)
+    (hB : progLen cf.checked pr + stdlibLength < 256 ^ cf.w) (hSE : F0 cf args < 256 ^ cf.w)
+    (hwf : wfProg pr = true) (hlen : args.length = pr.params.length)
     (fuel : Nat) (env' : Env) (tr : List Ev) (res : Res)
-    (hex : exec (256 ^ cf.w) (8 * cf.w) fuel (argEnv (256 ^ cf.w) params args) body = some (env', tr, res))
+    (hex : srcRun cf fuel args pr = some (env', tr, res))
     (hck : res = .div0 → cf.checked = true)
-    (hroom : pkS cf.w (entryOff cf.w params) body ≤ cf.stackWords * cf.w + args.length * cf.w + cf.w) :
-    ∃ mEnd, Exec (sphinx (coreProg cf params body)) (coreInit cf args body) (tr ++ terminalEvs res)
-        ⟨tntPc (funcLen cf.checked body), mEnd⟩ ∧
-      ¬ Halts (sphinx (coreProg cf params body)) (coreInit cf args body) := by
-  have lib := core_placed cf params body hw hB
+    (hroom : pkS cf.w (entryOff cf.w pr.params) pr.body ≤ roomOf cf args) :
+    ∃ mEnd, Exec (sphinx (coreProg cf pr)) (coreInit cf args pr) (tr ++ terminalEvs res)
+        ⟨tntPc (progLen cf.checked pr), mEnd⟩ ∧
+      ¬ Halts (sphinx (coreProg cf pr)) (coreInit cf args pr) := by
+  have lib := core_placed cf pr hw hB
+  have fok := core_fnsOK cf pr hwf
+  change pkS cf.w (entryOff cf.w pr.params) pr.body ≤ cf.stackWords * cf.w + args.length * cf.w + cf.w at hroom
+  change exec (256 ^ cf.w) (8 * cf.w) pr.funs cf.w fuel (cf.stackWords * cf.w + args.length * cf.w + cf.w)
+    (entryOff cf.w pr.params) (argEnv (256 ^ cf.w) pr.params args) pr.body = some (env', tr, res) at hex
+  obtain ⟨hnd, hwfb, hyl, hnf, _, _⟩ := wfProg_parts hwf
+  have hinv0 := init_inv cf args pr hw hB hSE hnd hlen
   have h64 := mul_w_lt_pow cf.w hw
   have hM := pow_ge2 cf.w hw
-  have hpro := fun hc hpk => prologue_steps cf params args body hw hc hB hSE hpk
-  generalize hp : coreProg cf params body = p at *
-  have hpw : p.w = cf.w := by rw [← hp]; rfl
-  generalize hBdef : funcLen cf.checked body = B at *
   have hF : F0 cf args = 5 * cf.w + cf.stackWords * cf.w + args.length * cf.w + cf.w := rfl
-  have heo : entryOff cf.w params = params.length * cf.w + cf.w := by
+  have heo : entryOff cf.w pr.params = pr.params.length * cf.w + cf.w := by
     unfold entryOff; simp only [Nat.add_mul, Nat.one_mul]
-  -- frame facts of the initial memory
-  have fr0 : Fr p (initMem cf args body) (F0 cf args) (cf.stackWords * cf.w + args.length * cf.w + cf.w) :=
-    ⟨by rw [hpw]; exact initMem_fp cf args body hw hSE, by rw [initMem_size]; exact Nat.le_refl _,
-     by rw [hpw]; exact hSE, by rw [hpw, hF]; omega⟩
-  have hra0 : (initMem cf args body).readLE (F0 cf args - p.w) p.w = B + off_all_is_win := by
-    rw [hpw, ← hBdef]; exact initMem_ra cf args body hw (by rw [hBdef]; exact hB)
-  have hvars0 : VarsOK p.w (paramGam cf.w 0 params) (argEnv (256 ^ cf.w) params args) (initMem cf args body) (F0 cf args)
-      (entryOff cf.w params) := by
-    have := vars_paramGam cf.w (initMem cf args body) (F0 cf args) params args 0 hnd hlen
-      (fun j hj => by rw [Nat.zero_add]; exact initMem_arg cf args body hw j hj)
-    rw [hpw]; unfold entryOff; rw [Nat.zero_add] at this; exact this
-  have hinv0 : SInv p (paramGam cf.w 0 params) (argEnv (256 ^ cf.w) params args) (initMem cf args body) (F0 cf args)
-      (cf.stackWords * cf.w + args.length * cf.w + cf.w) (entryOff cf.w params) (B + off_all_is_win) :=
-    ⟨fr0, hvars0, hra0⟩
-  -- the function body
-  have hcodeP : PlacedAt p 0 (funcCode cf params body) := by
-    rw [← hp]; exact (placedAt_toArray_append cf.w (funcCode cf params body) (stdlibCode cf.w (funcLen cf.checked body)) ⟨#[]⟩).1
-  have hcx : mkCx cf body = cxOf p cf.checked B := by rw [← hp, ← hBdef]; rfl
-  have hbodyP : PlacedAt p (prologueLen cf.checked)
-      (cS (cxOf p cf.checked B) (paramGam cf.w 0 params) (prologueLen cf.checked) (entryOff cf.w params) body) := by
+  -- the entry function
+  have hall : PlacedAt (coreProg cf pr) 0 (progCode cf pr) :=
+    (placedAt_toArray_append cf.w (progCode cf pr) (stdlibCode cf.w (progLen cf.checked pr)) ⟨#[]⟩).1
+  unfold progCode at hall
+  have hcodeP : PlacedAt (coreProg cf pr) 0
+      (funcCode (cxOf (coreProg cf pr) cf.checked (progLen cf.checked pr)) (progFA cf.checked pr) 0 pr.params pr.body) :=
+    hall.append.1
+  have hcodeLen : (funcCode (cxOf (coreProg cf pr) cf.checked (progLen cf.checked pr)) (progFA cf.checked pr) 0 pr.params pr.body).length
+      = funcLen cf.checked pr.body := funcCode_len _ _ _ _ _
+  have hfl : funcLen cf.checked pr.body ≤ progLen cf.checked pr := by unfold progLen; omega
+  have hpro := (prologue_ok (ck := cf.checked) lib (progFA cf.checked pr) 0 pr.params pr.body (initMem cf args pr)
+    (F0 cf args) (cf.stackWords * cf.w + args.length * cf.w + cf.w) hinv0.fr hcodeP (by rw [hcodeLen]; omega)
+    (by show pkS cf.w (entryOff cf.w pr.params) pr.body < 256 ^ cf.w; rw [hF] at hSE; omega)).1
+    (by show pkS cf.w (entryOff cf.w pr.params) pr.body ≤ F0 cf args - 5 * cf.w; rw [hF]; omega)
+  have hbodyP : PlacedAt (coreProg cf pr) (0 + prologueLen cf.checked)
+      (cS (cxOf (coreProg cf pr) cf.checked (progLen cf.checked pr)) (progFA cf.checked pr)
+        (paramGam cf.w (2 * cf.w) pr.params) (0 + prologueLen cf.checked) (entryOff cf.w pr.params) pr.body) := by
     have := hcodeP
     unfold funcCode at this
-    rw [hcx] at this
     have h2 := this.append.2
     cases hc : cf.checked <;> simp [hc, prologueLen] at h2 ⊢ <;> exact h2
-  have hbodyLen : prologueLen cf.checked +
-      (cS (cxOf p cf.checked B) (paramGam cf.w 0 params) (prologueLen cf.checked) (entryOff cf.w params) body).length = B := by
-    rw [cS_len, ← hBdef]; rfl
-  have hbody := cS_ok (ck := cf.checked) lib (F0 cf args) (cf.stackWords * cf.w + args.length * cf.w + cf.w)
+  generalize hp : coreProg cf pr = p at *
+  have hpw : p.w = cf.w := by rw [← hp]; rfl
+  generalize hBdef : progLen cf.checked pr = B at *
+  have hbodyLen : 0 + prologueLen cf.checked +
+      (cS (cxOf p cf.checked B) (progFA cf.checked pr) (paramGam cf.w (2 * cf.w) pr.params) (0 + prologueLen cf.checked)
+        (entryOff cf.w pr.params) pr.body).length = funcLen cf.checked pr.body := by
+    rw [cS_len]; show 0 + prologueLen cf.checked + lenS cf.checked pr.body = prologueLen cf.checked + lenS cf.checked pr.body; omega
+  have hbody := cS_ok (ck := cf.checked) lib fok fuel (F0 cf args) (cf.stackWords * cf.w + args.length * cf.w + cf.w)
     (B + off_all_is_win) (by rw [hpw]; simp [off_all_is_win, stdlibLength] at *; omega)
-    fuel body (paramGam cf.w 0 params) (argEnv (256 ^ cf.w) params args) (prologueLen cf.checked) (entryOff cf.w params)
+    pr.body (paramGam cf.w (2 * cf.w) pr.params) (argEnv (256 ^ cf.w) pr.params args) (0 + prologueLen cf.checked)
+    (entryOff cf.w pr.params)
   rw [hpw] at hbody
-  have hnd' : res ≠ .defeat := exec_no_defeat _ _ _ _ _ _ _ _ hyl hex
-  -- after the body: win or the division_by_zero stub
-  have hend : ∀ (m0 : Mem), SInv p (paramGam cf.w 0 params) (argEnv (256 ^ cf.w) params args) m0 (F0 cf args)
-        (cf.stackWords * cf.w + args.length * cf.w + cf.w) (entryOff cf.w params) (B + off_all_is_win) →
-      ∃ mEnd, Reach (sphinx p) ⟨prologueLen cf.checked, m0⟩ (tr ++ terminalEvs res) ⟨tntPc B, mEnd⟩ := by
-    intro m0 hi0
-    have hsafe : ∀ st', Post p B (B + off_all_is_win) (paramGam cf.w 0 params) env' (F0 cf args)
-        (cf.stackWords * cf.w + args.length * cf.w + cf.w) (entryOff cf.w params)
-        (prologueLen cf.checked + (cS (cxOf p cf.checked B) (paramGam cf.w 0 params) (prologueLen cf.checked) (entryOff cf.w params) body).length) res st' →
-        ¬ Halts (sphinx p) st' := by
-      intro st' hp'
-      obtain ⟨pc', m'⟩ := st'
-      have tn := terminal_never_halts lib m'
-      cases res with
-      | norm =>
-        simp only [Post] at hp'
-        have hpc : pc' = B + off_all_is_win := by rw [hp'.1, hbodyLen]; simp [off_all_is_win]
-        subst hpc; exact tn.1
-      | returned => simp only [Post] at hp'; subst hp'; exact tn.1
-      | div0 => simp only [Post] at hp'; subst hp'; exact tn.2.2.2.1
-      | defeat => exact absurd rfl hnd'
-    obtain ⟨st', r, hpost⟩ := (hbody m0 env' tr res hbodyP (by omega) hi0 (disj_paramGam cf.w params 0 hnd)
-      (by rw [map_fst_paramGam]; exact hwf) hroom (by rw [heo]; omega) hex hck (Or.inr ⟨hyl, hsafe⟩)).2 hnd'
+  have hnd' : res ≠ .defeat := exec_no_defeat _ _ _ _ _ _ _ _ _ _ _ _ hyl hex
+  have hnn : res ≠ .norm := exec_noFall _ _ _ _ _ _ _ _ _ _ _ _ hnf hex
+  -- where the entry function can end: win, or the division_by_zero stub
+  have hsafe : ∀ st', Post p B (B + off_all_is_win) (paramGam cf.w (2 * cf.w) pr.params) env' (F0 cf args)
+      (cf.stackWords * cf.w + args.length * cf.w + cf.w) (entryOff cf.w pr.params)
+      (0 + prologueLen cf.checked + (cS (cxOf p cf.checked B) (progFA cf.checked pr) (paramGam cf.w (2 * cf.w) pr.params)
+        (0 + prologueLen cf.checked) (entryOff cf.w pr.params) pr.body).length) (initMem cf args pr) res st' →
+      ¬ Halts (sphinx p) st' ∧ ∃ mEnd, Reach (sphinx p) st' (terminalEvs res) ⟨tntPc B, mEnd⟩ := by
+    intro st' hp'
     obtain ⟨pc', m'⟩ := st'
+    have tn := terminal_never_halts lib m'
     cases res with
-    | norm =>
-      simp only [Post] at hpost
-      have hpc : pc' = B + off_all_is_win := by rw [hpost.1, hbodyLen]; simp [off_all_is_win]
-      subst hpc
-      exact ⟨m', r.trans (all_is_win_reach lib m')⟩
-    | returned =>
-      simp only [Post] at hpost
-      subst hpost
-      exact ⟨m', r.trans (all_is_win_reach lib m')⟩
-    | div0 =>
-      simp only [Post] at hpost
-      subst hpost
-      exact ⟨m', r.trans (error_stub_reach lib m').2.1⟩
+    | norm => exact absurd rfl hnn
+    | returned => simp only [Post] at hp'; obtain ⟨rfl, _⟩ := hp'; exact ⟨tn.1, m', all_is_win_reach lib m'⟩
+    | retv v => simp only [Post] at hp'; obtain ⟨rfl, _⟩ := hp'; exact ⟨tn.1, m', all_is_win_reach lib m'⟩
+    | div0 => simp only [Post] at hp'; subst hp'; exact ⟨tn.2.2.2.1, m', (error_stub_reach lib m').2.1⟩
     | defeat => exact absurd rfl hnd'
-  -- the prologue
-  have hreach : ∃ mEnd, Reach (sphinx p) (coreInit cf args body) (tr ++ terminalEvs res) ⟨tntPc B, mEnd⟩ := by
-    cases hc : cf.checked with
-    | false =>
-      rw [hc] at hend
-      simpa [coreInit, prologueLen] using hend (initMem cf args body) hinv0
-    | true =>
-      rw [hc] at hend
-      obtain ⟨m1, k1, s0, s1, s2, _, _⟩ := hpro hc (by omega)
-      rw [if_pos hroom] at s2
-      have hh : Halts (sphinx p) ⟨1, initMem cf args body⟩ :=
-        Halts.next (sys := sphinx p) s1 (Halts.halt (sys := sphinx p) s2)
-      have j := Reach.jump_taken' (sys := sphinx p) s0 hh
-      obtain ⟨mEnd, r⟩ := hend (initMem cf args body) hinv0
-      exact ⟨mEnd, by simpa [coreInit, prologueLen] using j.trans r⟩
-  obtain ⟨mEnd, r⟩ := hreach
+  obtain ⟨st', r, hpost⟩ := (hbody (initMem cf args pr) env' tr res hbodyP (by omega) hinv0
+    (disj_paramGam cf.w pr.params (2 * cf.w) hnd)
+    (by rw [map_fst_paramGam]; exact hwfb) hroom (by rw [heo]; omega) hex hck
+    (Or.inr ⟨hyl, fun st' h => (hsafe st' h).1⟩)).2 hnd'
+  obtain ⟨mEnd, rend⟩ := (hsafe st' hpost).2
+  have rall := (hpro.trans r).trans rend
   have nh := tnt_never_halts lib mEnd
-  exact ⟨mEnd, (r.exec nh).1, (r.exec nh).2⟩
+  refine ⟨mEnd, ?_, ?_⟩
+  · have := (rall.exec nh).1; simpa [coreInit] using this
+  · have := (rall.exec nh).2; simpa [coreInit] using this
 
-/-- checked build, stack smaller than the frame peak: `stack_overflow` before anything else happens -/
-theorem core_overflow (cf : Config) (params : List String) (args : List Int) (body : S) (hw : 2 ≤ cf.w)
+/-- checked build, stack smaller than the frame peak of the entry point: `stack_overflow` before anything
+else happens -/
+theorem core_overflow (cf : Config) (args : List Int) (pr : CProg) (hw : 2 ≤ cf.w)
     (hck : cf.checked = true)
-    (hB : funcLen cf.checked body + stdlibLength < 256 ^ cf.w) (hSE : F0 cf args < 256 ^ cf.w)
-    (hsmall : cf.stackWords * cf.w + args.length * cf.w + cf.w < pkS cf.w (entryOff cf.w params) body)
-    (hpkM : pkS cf.w (entryOff cf.w params) body < 256 ^ cf.w) :
-    ∃ mEnd, Exec (sphinx (coreProg cf params body)) (coreInit cf args body) [Ev.flag "stack_overflow", Ev.flag "error"]
-        ⟨tntPc (funcLen cf.checked body), mEnd⟩ ∧
-      ¬ Halts (sphinx (coreProg cf params body)) (coreInit cf args body) := by
-  have lib := core_placed cf params body hw hB
-  obtain ⟨m1, k1, s0, s1, s2, s3, s4⟩ := prologue_steps cf params args body hw hck hB hSE hpkM
-  rw [if_neg (by omega)] at s2
-  generalize hp : coreProg cf params body = p at *
-  have j3 := Reach.jump_taken (sys := sphinx p) s3 s4
-  have rso := (error_stub_reach lib m1).1
-  have r1 : Reach (sphinx p) ⟨1, initMem cf args body⟩ [Ev.flag "stack_overflow", Ev.flag "error"]
-      ⟨tntPc (funcLen cf.checked body), m1⟩ := by
-    have := (Reach.of_next (sys := sphinx p) s1).trans ((Reach.of_next (sys := sphinx p) s2).trans (j3.trans rso))
-    simpa [evl] using this
+    (hB : progLen cf.checked pr + stdlibLength < 256 ^ cf.w) (hSE : F0 cf args < 256 ^ cf.w)
+    (hnd : pr.params.Nodup) (hlen : args.length = pr.params.length)
+    (hsmall : roomOf cf args < pkS cf.w (entryOff cf.w pr.params) pr.body)
+    (hpkM : pkS cf.w (entryOff cf.w pr.params) pr.body < 256 ^ cf.w) :
+    ∃ mEnd, Exec (sphinx (coreProg cf pr)) (coreInit cf args pr) [Ev.flag "stack_overflow", Ev.flag "error"]
+        ⟨tntPc (progLen cf.checked pr), mEnd⟩ ∧
+      ¬ Halts (sphinx (coreProg cf pr)) (coreInit cf args pr) := by
+  have lib := core_placed cf pr hw hB
+  change cf.stackWords * cf.w + args.length * cf.w + cf.w < pkS cf.w (entryOff cf.w pr.params) pr.body at hsmall
+  have hinv0 := init_inv cf args pr hw hB hSE hnd hlen
+  have hF : F0 cf args = 5 * cf.w + cf.stackWords * cf.w + args.length * cf.w + cf.w := rfl
+  have hall : PlacedAt (coreProg cf pr) 0 (progCode cf pr) :=
+    (placedAt_toArray_append cf.w (progCode cf pr) (stdlibCode cf.w (progLen cf.checked pr)) ⟨#[]⟩).1
+  unfold progCode at hall
+  have hcodeP : PlacedAt (coreProg cf pr) 0
+      (funcCode (cxOf (coreProg cf pr) cf.checked (progLen cf.checked pr)) (progFA cf.checked pr) 0 pr.params pr.body) :=
+    hall.append.1
+  have hfl : funcLen cf.checked pr.body ≤ progLen cf.checked pr := by unfold progLen; omega
+  obtain ⟨m1, r1⟩ := (prologue_ok (ck := cf.checked) lib (progFA cf.checked pr) 0 pr.params pr.body (initMem cf args pr)
+    (F0 cf args) (cf.stackWords * cf.w + args.length * cf.w + cf.w) hinv0.fr hcodeP (by rw [funcCode_len]; show 0 + funcLen cf.checked pr.body ≤ progLen cf.checked pr; omega)
+    hpkM).2 hck (by show F0 cf args - 5 * cf.w < pkS cf.w (entryOff cf.w pr.params) pr.body; rw [hF]; omega)
+  have r := r1.trans (error_stub_reach lib m1).1
   have nh := tnt_never_halts lib m1
-  have nh1 : ¬ Halts (sphinx p) ⟨1, initMem cf args body⟩ := (r1.exec nh).2
-  have r0 := Reach.jump_not_taken (sys := sphinx p) s0 (fun hh => absurd hh nh1)
-  have r := r0.trans r1
   refine ⟨m1, ?_, ?_⟩
   · have := (r.exec nh).1; simpa [coreInit] using this
   · have := (r.exec nh).2; simpa [coreInit] using this
